@@ -672,7 +672,7 @@ impl Engine for E3 {
         let mut sch = rng.split(4);
         // rarely: a large bounded queue (anything that treats large capacities differently, or that
         // leaks capacity, shows only here)
-        let big_cap = if matches!(focus, "C10" | "C11" | "C08" | "C09" | "C15") && cfg.chance(1, 150) { Some(*cfg.pick(&[1025usize, 1500, 2049])) } else { None };
+        let big_cap = if matches!(focus, "C10" | "C11" | "C08" | "C09" | "C15") && cfg.chance(1, 100) { Some(*cfg.pick(&[16usize, 32, 64, 128, 256, 1025, 1500, 2049])) } else { None };
         let cap = match cfg.weighted(&[30, 22, 16, 10, 14, if focus == "C20" { 8 } else { 0 }]) {
             0 => None,
             1 => Some(1),
